@@ -642,7 +642,10 @@ def run_list(calls, jit, tag, timeout):
             # (alone, with a generous limit: load or a cold cache must not be mistaken for a hang)
             singles = cm.run_impl_parallel(PID, "c20", [dict(calls=[dict(c, budget=900.0)], budget=900.0) for c in ch], timeout=1200, jit=jit,
                                            tag=f"{tag}_iso{w}_")
-            for i, s in zip(idxs, singles):
+            for i, s, c in zip(idxs, singles, ch):
+                if s["status"] != "ok":
+                    # once more, strictly alone: a parallel re-run on a loaded machine / cold cache is not a verdict
+                    s = cm.run_impl(PID, "c20", dict(calls=[dict(c, budget=900.0)], budget=900.0), timeout=1200, jit=jit, tag=f"{tag}_alone")
                 if s["status"] == "ok":
                     out[i] = s["result"]["results"][0]
                 else:
@@ -743,7 +746,8 @@ def run(tier, seed, replay=None):
         what = None
         if "died" in a or "died" in b:
             if a.get("died") != b.get("died"):
-                what = f"{fam}.{c.get('fn', '')}: worker {a.get('died', 'ok')} compiled vs {b.get('died', 'ok')} interpreted"
+                what = (f"{fam}.{c.get('fn', '')}: worker {a.get('died', 'ok')} (rc={a.get('rc')}) compiled vs {b.get('died', 'ok')} "
+                        f"(rc={b.get('rc')}) interpreted; confirmed by re-running the call alone; log: {(a.get('log') or b.get('log') or '')[-160:]}")
             else:
                 T.hit("died_in_both_modes")
                 R.notes.append(f"{fam}.{c.get('fn', '')}: worker {a.get('died')} in BOTH modes (judged by C19): {a.get('log', '')[-120:]}")
